@@ -377,8 +377,37 @@ def main(argv):
         if still:
             print('VIOLATION property=%s replay=%s' % (prop, rp))
         return 1 if still else 0
+    # watchdog: the analysis of a tree the rules were not written for must end in a verdict, not hang. On the pinned tree a quick check
+    # takes seconds (C16 / C20: a few minutes when the facts have to be re-extracted); the limit is far above that. Running out of time is
+    # reported like any other failure of the engine: fail-closed, as a violation that names the cause.
+    import signal
+    limit = int(os.environ.get('VERIF_TIME_LIMIT', '2400' if tier == 'quick' else '14400'))
+    class EngineTimeout(Exception):
+        pass
+    def _on_alarm(sig, frm):
+        raise EngineTimeout()
+    try:
+        signal.signal(signal.SIGALRM, _on_alarm)
+        signal.alarm(limit)
+    except Exception:
+        pass
     try:
         return run_property(prop, tier)
+    except EngineTimeout:
+        rep_dir = os.path.join(VERIF, 'reports', prop)
+        os.makedirs(rep_dir, exist_ok=True)
+        path = os.path.join(rep_dir, 'ENGINE-timeout.json')
+        with open(path, 'w') as f:
+            json.dump({'inst': 'ENGINE', 'status': 'violation', 'site': '-', 'key': 'ENGINE|timeout', 'rule': 'ENGINE-ERROR',
+                       'detail': 'the rule engine did not reach a verdict within %d s on this tree: judged fail-closed' % limit}, f, indent=1)
+        print('-  %s.ENGINE  rule=ENGINE-ERROR  -- the rule engine did not reach a verdict within %d s on this tree: judged fail-closed' % (prop, limit))
+        print('VIOLATION property=%s replay=%s' % (prop, path))
+        return 1
     except extract.InfraError as e:
         sys.stderr.write('INFRASTRUCTURE ERROR (not a verdict): %s\n' % e)
         return 2
+    finally:
+        try:
+            signal.alarm(0)
+        except Exception:
+            pass
